@@ -331,10 +331,12 @@ def writeTsvSimple (isTsv : Bool) (field : String) (data : List (Int × SVal)) :
     (["cluster_id".toList, field.toList] ::
       (sortById data).map fun p => [(intToStr p.1).toList, (renderS p.2).toList])
 
-/-- `_read_tsv_simple(path)` (_misc.py:297-322): (field name, {cluster_id: value}) with the entries in
+/-- `_read_tsv_simple(path)` (_misc.py:307-333): (field name, {cluster_id: value}) with the entries in
 file order (a later line with the same id would replace an earlier one; the writer never repeats an
-id); `none`: the real function raises (empty file, a line without exactly two fields, an id that
-`int()` rejects) -/
+id).  An EMPTY row - what `csv.reader` yields for a blank line: a trailing blank line left by an editor, a
+blank line between two rows - is skipped (`if not row: continue`, _misc.py:326-328).  `none`: the real
+function raises (empty file, a non-empty line without exactly two fields, an id that `int()` rejects; the
+header line must have exactly two fields, a blank first line raises) -/
 def readTsvSimple (text : Str) : Option (String × List (Int × Num)) :=
   let lines := fileLines text
   match lines.map (csvParseLine (sniff lines)) with
@@ -342,7 +344,7 @@ def readTsvSimple (text : Str) : Option (String × List (Int × Num)) :=
   | hdr :: body =>
     match hdr with
     | [_, f] =>
-      (body.mapM fun row =>
+      ((body.filter fun (row : List Str) => !row.isEmpty).mapM fun row =>
         match row with
         | [cid, v] => (parseIntLit cid).map fun i => (i, tryMakeNumber (String.ofList v))
         | _ => none).map fun d => (String.ofList f, d)
